@@ -241,9 +241,13 @@ fn observe_flags(rep: &mut Report, level: u32) {
             rep.eval();
             let res = guard(|| {
                 let mut q: Req = CoapRequest::new();
-                if pi >= 3 {
+                if pi == 3 {
                     // a FETCH request observes like a GET request does (RFC 8132)
                     q.set_method(coap_lite::RequestType::Fetch);
+                }
+                if pi == 4 {
+                    // the getter reads the Observe option, whatever the code byte of the message says
+                    q.message.header.code = coap_lite::MessageClass::from([0x45u8, 0x00, 0x84, 0xe1][n as usize * 2 % 4 + (flag == ObserveOption::Register) as usize]);
                 }
                 let before = q.get_observe_flag();
                 if let Some(p) = prev {
